@@ -141,6 +141,7 @@ func c03Case(c *Ctx) {
 		if tc.Trials > 0 {
 			defer knobs(tc.Trials, tc.FailRate)()
 		}
+		tc.preCalls()
 		if !c03CheckAlphabet(c, tc.Rec, sem) {
 			return
 		}
